@@ -1,0 +1,25 @@
+//go:build verif
+
+package utils
+
+import "sync/atomic"
+
+// verifYieldFn is installed by the verification harness (build tag verif) to
+// observe/park goroutines at labelled yield points. Nil means no-op.
+var verifYieldFn atomic.Pointer[func(label string)]
+
+// SetVerifYield installs (or clears, with nil) the yield callback.
+func SetVerifYield(fn func(label string)) {
+	if fn == nil {
+		verifYieldFn.Store(nil)
+		return
+	}
+	verifYieldFn.Store(&fn)
+}
+
+// VerifYield is a labelled scheduling point used only by verification builds.
+func VerifYield(label string) {
+	if fn := verifYieldFn.Load(); fn != nil {
+		(*fn)(label)
+	}
+}
